@@ -1,3 +1,461 @@
--- stub: replaced by the property author
+import SupervisorModel.Lemmas.Capture
+/-
+  C08 — capture mode extracts exactly what is between the tags.
+
+  Reference: `Sv.CapSpec.refSplit` (Lemmas/CaptureSpec.lean) applied to the whole, unfragmented
+  stream.  Model: `Sv.OutDisp` (Model/OutDisp.lean), whose tests, slices and arithmetic are the
+  definitions regenerated from supervisor/dispatchers.py, supervisor/medusa/asynchat_25.py and
+  supervisor/loggers.py (`Sv.Gen.OutDisp.*`).  Observables: `loggedOf` (bytes handed to the log
+  file), `plogOf` (PROCESS_LOG event data), `commOf` (PROCESS_COMMUNICATION event data).
+-/
+set_option linter.unusedSimpArgs false
+set_option linter.unusedVariables false
 namespace Sv.Props.C08
+open Sv Sv.OutDisp Sv.Gen.OutDisp Sv.CapSpec
+
+/-! ### the tags are the documented ones, for both channels -/
+
+/-- ASCII text as bytes -/
+def ascii (l : List Char) : Bytes := l.map fun ch => ch.toNat.toUInt8
+
+theorem tokens_as_documented :
+    BEGIN_TOKEN = ascii ['<', '!', '-', '-', 'X', 'S', 'U', 'P', 'E', 'R', 'V', 'I', 'S', 'O', 'R', ':', 'B', 'E', 'G', 'I', 'N', '-', '-', '>'] ∧
+    END_TOKEN = ascii ['<', '!', '-', '-', 'X', 'S', 'U', 'P', 'E', 'R', 'V', 'I', 'S', 'O', 'R', ':', 'E', 'N', 'D', '-', '-', '>'] ∧
+    stdout_BEGIN = BEGIN_TOKEN ∧ stderr_BEGIN = BEGIN_TOKEN ∧ stdout_END = END_TOKEN ∧ stderr_END = END_TOKEN := by
+  decide
+
+/-- configurations the driver builds (`parseCfg`): generated tokens of the channel -/
+def Std (c : Cfg) : Prop :=
+  c.btok = (if c.isStdout then stdout_BEGIN else stderr_BEGIN) ∧ c.etok = (if c.isStdout then stdout_END else stderr_END)
+
+theorem std_tokens_nonempty (c : Cfg) (h : Std c) : c.btok ≠ [] ∧ c.etok ≠ [] := by
+  obtain ⟨h1, h2⟩ := h
+  rw [h1, h2]
+  cases c.isStdout <;> decide
+
+/-! ### the scanner refines the reference splitter (monoid-action form of fragmentation invariance)
+
+  `scanGo` is `record_output`: from (`capturemode` = m, `output_buffer` = buf) it makes the calls
+  `acts` and leaves (`mode`, `buf`).  For every continuation `y` of the stream, what it has
+  decided so far followed by the reference applied to "what it kept ++ y" equals the reference
+  applied to "what it had ++ y".  After an end-of-file scan nothing more can follow (`y = []`).
+  The "not enough data yet" test (`record_output_g2`) and the `if after:` test
+  (`record_output_g4`) are kept opaque: waiting is always safe. -/
+theorem scan_refines (c : Cfg) (hc : c.capMax ≠ 0) (hb : c.btok ≠ []) (he : c.etok ≠ [])
+    (eof : Bool) (y : Bytes) (hy : eof = false ∨ y = []) :
+    ∀ (n : Nat) (m : Bool) (buf : Bytes), buf.length < n →
+      (scanGo c eof n m buf).fuelOut = false ∧
+      endMode m (scanGo c eof n m buf).acts = (scanGo c eof n m buf).mode ∧
+      flat m (scanGo c eof n m buf).acts ++
+          spec c (scanGo c eof n m buf).mode ((scanGo c eof n m buf).buf ++ y)
+        = spec c m (buf ++ y) := by
+  intro n
+  induction n with
+  | zero => intro m buf h; omega
+  | succ n ih =>
+    intro m buf hlen
+    have hg0 : record_output_g0 c.capMax m eof buf c.btok c.etok [] [] 0 = false := by
+      simp [record_output_g0, hc]
+    have htok : (if record_output_g1 c.capMax m eof buf c.btok c.etok [] [] 0
+                 then record_output_a2 c.capMax m eof buf c.btok c.etok [] [] 0
+                 else record_output_a3 c.capMax m eof buf c.btok c.etok [] [] 0) = tokOf c m := by
+      cases m <;> rfl
+    have htne : tokOf c m ≠ [] := by unfold tokOf; split <;> assumption
+    unfold scanGo
+    simp only [hg0, htok, Bool.false_eq_true, if_false]
+    by_cases hw : record_output_g2 c.capMax m eof buf c.btok c.etok [] [] 0 = true
+    · simp [hw, flat, endMode]
+    · simp only [hw, Bool.false_eq_true, if_false, record_output_a4, record_output_a5]
+      cases hs : splitFirst (tokOf c m) buf with
+      | none =>
+        simp only [findPrefixAtEnd_eq _ _ htne]
+        have key := splitFirst_append buf y hs htne
+        have hk := pae_le_length buf (tokOf c m)
+        by_cases h3 : record_output_g3 c.capMax m eof [] c.btok c.etok buf [] (pae buf (tokOf c m) : Int) = true
+        · -- hold back the longest token prefix at the end of the buffer
+          simp only [h3, if_true, flat, endMode, List.append_nil, true_and]
+          have hpos : 0 < pae buf (tokOf c m) := by
+            simp [record_output_g3] at h3; omega
+          have e10 : record_output_a10 c.capMax m eof [] c.btok c.etok buf [] (pae buf (tokOf c m) : Int)
+              = buf.take (buf.length - pae buf (tokOf c m)) := by
+            simp only [record_output_a10, Py.sliceTo, Py.normIdx]
+            rw [if_pos (by omega)]; congr 1; omega
+          have e9 : record_output_a9 c.capMax m eof [] c.btok c.etok buf [] (pae buf (tokOf c m) : Int)
+              = buf.drop (buf.length - pae buf (tokOf c m)) := by
+            simp only [record_output_a9, Py.sliceFrom, Py.normIdx, List.nil_append]
+            rw [if_pos (by omega)]; congr 1; omega
+          rw [e10, e9]
+          cases hr : splitFirst (tokOf c m) (List.drop (buf.length - pae buf (tokOf c m)) buf ++ y) with
+          | none =>
+            rw [hr] at key
+            simp at key
+            rw [spec_none hr, spec_none key, ← List.map_append, ← List.append_assoc, List.take_append_drop]
+          | some ba =>
+            obtain ⟨b', a'⟩ := ba
+            rw [hr] at key
+            simp at key
+            rw [spec_some hr, spec_some key]
+            simp
+        · -- nothing held back: no token prefix at the end of the buffer, or end of file
+          simp only [h3, Bool.false_eq_true, if_false, flat, endMode, List.append_nil, List.nil_append, true_and]
+          rcases hy with hy | hy
+          · have hz : pae buf (tokOf c m) = 0 := by
+              simp [record_output_g3, hy] at h3; omega
+            rw [hz] at key
+            simp at key
+            cases hr : splitFirst (tokOf c m) y with
+            | none =>
+              rw [hr] at key; simp at key
+              rw [spec_none hr, spec_none key, List.map_append]
+            | some ba =>
+              obtain ⟨b', a'⟩ := ba
+              rw [hr] at key; simp at key
+              rw [spec_some hr, spec_some key]; simp
+          · subst hy
+            simp only [List.append_nil]
+            rw [spec_none hs, spec_none (splitFirst_nil _)]; simp
+      | some ba =>
+        obtain ⟨before, after⟩ := ba
+        simp only [record_output_a11, toggle_a0]
+        have hsy := splitFirst_some_append y hs
+        have hal := splitFirst_some_length hs
+        rw [spec_some hsy]
+        by_cases h4 : record_output_g4 c.capMax (!m) eof after c.btok c.etok buf after 0 = true
+        · simp only [h4, if_true]
+          obtain ⟨i1, i2, i3⟩ := ih (!m) after (by omega)
+          refine ⟨i1, ?_, ?_⟩
+          · simpa [endMode] using i2
+          · simp only [flat, List.append_assoc, List.cons_append]
+            rw [i3]
+        · simp [h4, flat, endMode]
+
+/-- at end of file nothing stays in the buffer (fix F3): here the two tests that were opaque
+    above matter — no waiting at EOF, recursion while bytes remain -/
+theorem scan_eof_empties (c : Cfg) (hc : c.capMax ≠ 0) :
+    ∀ (n : Nat) (m : Bool) (buf : Bytes), buf.length < n → (scanGo c true n m buf).buf = [] := by
+  intro n
+  induction n with
+  | zero => intro m buf h; omega
+  | succ n ih =>
+    intro m buf hlen
+    unfold scanGo
+    simp only [record_output_g0, record_output_g1, record_output_g2, record_output_g3, record_output_g4,
+      record_output_a2, record_output_a3, record_output_a4, record_output_a5, record_output_a11, toggle_a0,
+      beq_iff_eq, hc, Bool.not_true, Bool.and_false, Bool.false_eq_true, if_false]
+    split
+    · rfl
+    · rename_i before after hs
+      have hal := splitFirst_some_length hs
+      by_cases h4 : after.isEmpty = true
+      · simp only [h4, Bool.not_true, Bool.false_eq_true, if_false]
+        simpa using h4
+      · simp only [h4, Bool.not_false, if_true]
+        exact ih _ _ (by omega)
+
+/-! ### one read (`handle_read_event`) at the level of observables -/
+
+/-- `feed_refines` (DESIGN.md C08): a read of `x` (empty = end of file) in a state that has so
+    far produced exactly the effects of `items` produces exactly the effects of some `items'`,
+    and for every continuation `y` of the stream, `items'` followed by the reference on what is
+    now held equals `items` followed by the reference on what was held, `x`, and `y`. -/
+theorem feed_refines (c : Cfg) (hc : 0 < c.capMax) (hst : c.strip = false) (hb : c.btok ≠ []) (he : c.etok ≠ [])
+    (x : Bytes) (s : S) (items : List Item) (h : Sim c s items) :
+    ∃ items', Sim c (readEvent c x s) items' ∧
+      (∀ y, (x ≠ [] ∨ y = []) →
+        items' ++ spec c (readEvent c x s).p.mode ((readEvent c x s).p.buf ++ y)
+          = items ++ spec c s.p.mode (s.p.buf ++ (x ++ y))) ∧
+      (x = [] → (readEvent c x s).p.buf = [] ∧ (readEvent c x s).p.closed = true) ∧
+      (x ≠ [] → (readEvent c x s).p.closed = s.p.closed) := by
+  have herr := h.err
+  obtain ⟨⟨mode, buf, cap, closed⟩, outs, err⟩ := s
+  simp only at herr
+  subst herr
+  have hcne : c.capMax ≠ 0 := by omega
+  let s1 : S := { p := { mode := mode, buf := buf ++ x, cap := cap, closed := closed }, outs := outs, err := none }
+  have hs1 : Sim c s1 items := ⟨rfl, h.logged, h.plog, h.comm, h.cap⟩
+  have hscan := fun y hy => scan_refines c hcne hb he x.isEmpty y hy ((buf ++ x).length + 1) mode (buf ++ x) (by omega)
+  obtain ⟨hf, _, _⟩ := hscan [] (by simp)
+  let r := scanGo c x.isEmpty ((buf ++ x).length + 1) mode (buf ++ x)
+  let s2 : S := { s1 with p := { s1.p with buf := r.buf } }
+  have hs2 : Sim c s2 items := ⟨rfl, h.logged, h.plog, h.comm, h.cap⟩
+  obtain ⟨hs3, hm3, hb3, hc3⟩ := sim_performAll c hc hst r.acts s2 items hs2
+  have hro : recordOutput c x.isEmpty s1 = performAll c r.acts s2 := by
+    simp only [recordOutput, guard, s1, setP, r, s2, Option.isSome_none, Bool.false_eq_true, if_false, hf]
+  have hread : readEvent c x ⟨⟨mode, buf, cap, closed⟩, outs, none⟩ =
+      if x.isEmpty then close (performAll c r.acts s2) else performAll c r.acts s2 := by
+    simp only [readEvent, guard, hre_a1, hre_c0_0, hre_g0, setP, Bool.not_not]
+    simp only [Option.isSome_none, Bool.false_eq_true, if_false]
+    rw [show ({ p := { mode := mode, buf := buf ++ x, cap := cap, closed := closed }, outs := outs, err := none } : S) = s1 from rfl, hro]
+  refine ⟨items ++ flat mode r.acts, ?_, ?_, ?_, ?_⟩
+  · rw [hread]
+    split
+    · -- end of file: the dispatcher closes; `closed` is not one of the log/event observables
+      have he3 := hs3.err
+      generalize performAll c r.acts s2 = s3 at hs3 he3
+      obtain ⟨p3, outs3, err3⟩ := s3
+      simp only at he3; subst he3
+      simp only [close, guard, emit, setP]
+      simp only [Option.isSome_none, Bool.false_eq_true, if_false]
+      split
+      · exact hs3
+      · exact ⟨rfl, by simpa [loggedOf_append, loggedOf] using hs3.logged,
+          by simpa [plogOf_append, plogOf] using hs3.plog,
+          by simpa [commOf_append, commOf] using hs3.comm, hs3.cap⟩
+    · exact hs3
+  · intro y hy
+    have hy' : x.isEmpty = false ∨ y = [] := by
+      rcases hy with hy | hy
+      · left; cases x <;> simp_all
+      · right; exact hy
+    obtain ⟨_, hm, heq⟩ := hscan y hy'
+    have hmode : (readEvent c x ⟨⟨mode, buf, cap, closed⟩, outs, none⟩).p.mode = r.mode := by
+      rw [hread]; split
+      · have he3 := hs3.err
+        generalize performAll c r.acts s2 = s3 at hm3 he3
+        obtain ⟨p3, outs3, err3⟩ := s3
+        simp only at he3; subst he3
+        simp only [close, guard, emit, setP]
+        simp only [Option.isSome_none, Bool.false_eq_true, if_false]
+        split <;> exact hm3.trans hm
+      · exact hm3.trans hm
+    have hbuf : (readEvent c x ⟨⟨mode, buf, cap, closed⟩, outs, none⟩).p.buf = r.buf := by
+      rw [hread]; split
+      · have he3 := hs3.err
+        generalize performAll c r.acts s2 = s3 at hb3 he3
+        obtain ⟨p3, outs3, err3⟩ := s3
+        simp only at he3; subst he3
+        simp only [close, guard, emit, setP]
+        simp only [Option.isSome_none, Bool.false_eq_true, if_false]
+        split <;> simpa [s2, s1] using hb3
+      · simpa [s2, s1] using hb3
+    rw [hmode, hbuf, List.append_assoc, heq, List.append_assoc]
+  · intro hx
+    subst hx
+    have hbe := scan_eof_empties c hcne ((buf ++ []).length + 1) mode (buf ++ []) (by omega)
+    rw [hread]
+    simp only [List.isEmpty_nil, if_true]
+    have he3 := hs3.err
+    generalize performAll c r.acts s2 = s3 at hb3 he3
+    obtain ⟨p3, outs3, err3⟩ := s3
+    simp only at he3; subst he3
+    simp only [close, guard, emit, setP]
+    simp only [Option.isSome_none, Bool.false_eq_true, if_false]
+    have : p3.buf = [] := by
+      simp only [s2, s1] at hb3
+      rw [hb3]; exact hbe
+    split
+    · rename_i hcl; exact ⟨this, hcl⟩
+    · exact ⟨this, rfl⟩
+  · intro hx
+    have : x.isEmpty = false := by cases x <;> simp_all
+    rw [hread, this]
+    simpa [s2, s1] using hc3
+
+/-! ### every fragmentation -/
+
+/-- the reads so far (`stream`, in any fragmentation) have been processed correctly, whatever follows -/
+def Inv (c : Cfg) (s : S) (stream : Bytes) : Prop :=
+  ∃ items, Sim c s items ∧ ∀ y, items ++ spec c s.p.mode (s.p.buf ++ y) = spec c false (stream ++ y)
+
+theorem init_inv (c : Cfg) (hc : 0 < c.capMax) : Inv c init [] :=
+  ⟨[], ⟨rfl, by simp [init, loggedOf, plainOf], by simp [init, plogOf, plainOf], by simp [init, commOf, sectionsGo, AllOk],
+      EvOk_nil _ (by omega)⟩, fun y => by simp [init]⟩
+
+/-- `∀ chunks`: feeding any list of non-empty reads keeps the invariant for the concatenated stream -/
+theorem feedAll_refines (c : Cfg) (hc : 0 < c.capMax) (hst : c.strip = false) (hb : c.btok ≠ []) (he : c.etok ≠ [])
+    (chunks : List Bytes) (hne : ∀ x ∈ chunks, x ≠ []) :
+    ∀ (s : S) (stream : Bytes), Inv c s stream → Inv c (feedAll c chunks s) (stream ++ chunks.flatten) := by
+  induction chunks with
+  | nil => intro s stream h; simpa [feedAll] using h
+  | cons x r ih =>
+    intro s stream ⟨items, hs, hi⟩
+    obtain ⟨items', hs', hi', _, _⟩ := feed_refines c hc hst hb he x s items hs
+    have hx : x ≠ [] := hne x (by simp)
+    have := ih (fun z hz => hne z (by simp [hz])) (readEvent c x s) (stream ++ x)
+      ⟨items', hs', fun y => by rw [hi' y (Or.inl hx), hi (x ++ y), List.append_assoc]⟩
+    simpa [feedAll, List.append_assoc] using this
+
+/-- a child's whole life on one channel: the reads in `chunks`, then the end-of-file read -/
+def run (c : Cfg) (chunks : List Bytes) : S := readEvent c [] (feedAll c chunks init)
+
+/-- `complete_at_eof`: after any fragmentation of a stream followed by end of file, the effects
+    are exactly those of the reference splitter on the whole stream, nothing is left in the
+    buffer, and the dispatcher is closed -/
+theorem run_complete (c : Cfg) (hc : 0 < c.capMax) (hst : c.strip = false) (hb : c.btok ≠ []) (he : c.etok ≠ [])
+    (chunks : List Bytes) (hne : ∀ x ∈ chunks, x ≠ []) :
+    Sim c (run c chunks) (spec c false chunks.flatten) ∧ (run c chunks).p.buf = [] ∧ (run c chunks).p.closed = true := by
+  obtain ⟨items, hs, hi⟩ := feedAll_refines c hc hst hb he chunks hne init [] (init_inv c hc)
+  obtain ⟨items', hs', hi', hcl, _⟩ := feed_refines c hc hst hb he [] _ items hs
+  have h1 := hi' [] (Or.inr rfl)
+  have h2 := hi []
+  obtain ⟨hbuf, hclosed⟩ := hcl rfl
+  simp only [List.append_nil, List.nil_append] at h1 h2
+  rw [hbuf, spec_nil, List.append_nil, h2] at h1
+  subst h1
+  exact ⟨hs', hbuf, hclosed⟩
+
+/-! ### the property, in terms of the reference splitter `refSplit` on the unfragmented stream -/
+
+/-- neither the tags nor the enclosed bytes reach the log, and nothing outside them is missing -/
+theorem captured_not_logged (c : Cfg) (hc : 0 < c.capMax) (hst : c.strip = false) (hb : c.btok ≠ []) (he : c.etok ≠ [])
+    (chunks : List Bytes) (hne : ∀ x ∈ chunks, x ≠ []) :
+    loggedOf (run c chunks).outs = if c.hasLog then (refSplit c false chunks.flatten).plain else [] := by
+  rw [(run_complete c hc hst hb he chunks hne).1.logged, plainOf_spec]
+
+/-- PROCESS_LOG events carry exactly the bytes outside capture sections (fix F4), and only when enabled -/
+theorem captured_not_in_plog (c : Cfg) (hc : 0 < c.capMax) (hst : c.strip = false) (hb : c.btok ≠ []) (he : c.etok ≠ [])
+    (chunks : List Bytes) (hne : ∀ x ∈ chunks, x ≠ []) :
+    plogOf (run c chunks).outs = if evOn c then (refSplit c false chunks.flatten).plain else [] := by
+  rw [(run_complete c hc hst hb he chunks hne).1.plog, plainOf_spec]
+
+/-- `event_data_is_suffix_and_bounded`: one event per closed section, in order; its data is a
+    trailing part of the enclosed bytes, at most capture_maxbytes long (fix F5), and all of them
+    when they fit -/
+theorem event_data_is_suffix_and_bounded (c : Cfg) (hc : 0 < c.capMax) (hst : c.strip = false)
+    (hb : c.btok ≠ []) (he : c.etok ≠ []) (chunks : List Bytes) (hne : ∀ x ∈ chunks, x ≠ []) :
+    AllOk c.capMax (commOf (run c chunks).outs) (refSplit c false chunks.flatten).sections := by
+  have := (run_complete c hc hst hb he chunks hne).1.comm
+  rwa [sections_spec] at this
+
+theorem one_event_per_section (c : Cfg) (hc : 0 < c.capMax) (hst : c.strip = false)
+    (hb : c.btok ≠ []) (he : c.etok ≠ []) (chunks : List Bytes) (hne : ∀ x ∈ chunks, x ≠ []) :
+    (commOf (run c chunks).outs).length = (refSplit c false chunks.flatten).sections.length :=
+  AllOk_length (event_data_is_suffix_and_bounded c hc hst hb he chunks hne)
+
+/-- the division into logged and captured bytes does not depend on the fragmentation -/
+theorem fragmentation_invariance (c : Cfg) (hc : 0 < c.capMax) (hst : c.strip = false)
+    (hb : c.btok ≠ []) (he : c.etok ≠ []) (c1 c2 : List Bytes)
+    (h1 : ∀ x ∈ c1, x ≠ []) (h2 : ∀ x ∈ c2, x ≠ []) (hsame : c1.flatten = c2.flatten) :
+    loggedOf (run c c1).outs = loggedOf (run c c2).outs ∧
+    plogOf (run c c1).outs = plogOf (run c c2).outs ∧
+    (commOf (run c c1).outs).length = (commOf (run c c2).outs).length ∧
+    ∃ secs, AllOk c.capMax (commOf (run c c1).outs) secs ∧ AllOk c.capMax (commOf (run c c2).outs) secs := by
+  refine ⟨?_, ?_, ?_, (refSplit c false c2.flatten).sections, ?_, ?_⟩
+  · rw [captured_not_logged c hc hst hb he c1 h1, captured_not_logged c hc hst hb he c2 h2, hsame]
+  · rw [captured_not_in_plog c hc hst hb he c1 h1, captured_not_in_plog c hc hst hb he c2 h2, hsame]
+  · rw [one_event_per_section c hc hst hb he c1 h1, one_event_per_section c hc hst hb he c2 h2, hsame]
+  · rw [← hsame]; exact event_data_is_suffix_and_bounded c hc hst hb he c1 h1
+  · exact event_data_is_suffix_and_bounded c hc hst hb he c2 h2
+
+/-- while the child is still running (no end of file yet), whatever has been logged is a prefix
+    of what the reference logs for the stream so far extended by *any* continuation, and no
+    event has been emitted that the reference would not emit -/
+theorem prefix_safe (c : Cfg) (hc : 0 < c.capMax) (hst : c.strip = false) (hb : c.btok ≠ []) (he : c.etok ≠ [])
+    (chunks : List Bytes) (hne : ∀ x ∈ chunks, x ≠ []) (y : Bytes) :
+    (c.hasLog = true → loggedOf (feedAll c chunks init).outs <+: (refSplit c false (chunks.flatten ++ y)).plain) ∧
+    (commOf (feedAll c chunks init).outs).length ≤ (refSplit c false (chunks.flatten ++ y)).sections.length := by
+  obtain ⟨items, hs, hi⟩ := feedAll_refines c hc hst hb he chunks hne init [] (init_inv c hc)
+  have h := hi y
+  simp only [List.nil_append] at h
+  constructor
+  · intro hl
+    rw [hs.logged, hl, if_pos rfl, ← plainOf_spec, ← h, plainOf_append]
+    exact List.prefix_append _ _
+  · rw [← sections_spec, ← h, sectionsGo_append, List.length_append, ← AllOk_length hs.comm]
+    omega
+
+/-- an unterminated section yields no event: if the first BEGIN tag splits the stream into
+    `pre` and `rest` and no END tag occurs in `rest`, only `pre` is logged and nothing is emitted -/
+theorem unterminated_section_yields_no_event (c : Cfg) (hc : 0 < c.capMax) (hst : c.strip = false)
+    (hb : c.btok ≠ []) (he : c.etok ≠ []) (chunks : List Bytes) (hne : ∀ x ∈ chunks, x ≠ [])
+    (pre rest : Bytes) (h1 : splitFirst c.btok chunks.flatten = some (pre, rest)) (h2 : splitFirst c.etok rest = none) :
+    commOf (run c chunks).outs = [] ∧ loggedOf (run c chunks).outs = if c.hasLog then pre else [] := by
+  have hr : refSplit c false chunks.flatten = ⟨pre, [], some rest⟩ := by
+    rw [refSplit_some (m := false) h1]
+    simp only [Bool.not_false, Bool.false_eq_true, if_false]
+    rw [refSplit_none (m := true) h2]; simp
+  have hl := one_event_per_section c hc hst hb he chunks hne
+  rw [hr] at hl
+  refine ⟨List.eq_nil_of_length_eq_zero hl, ?_⟩
+  rw [captured_not_logged c hc hst hb he chunks hne, hr]
+
+/-! ### capture_maxbytes = 0: the tags are ordinary output -/
+
+/-- what one read does when there is no capture logger -/
+theorem read_capture_off (c : Cfg) (hc : c.capMax = 0) (hst : c.strip = false) (x : Bytes) (s : S)
+    (he : s.err = none) (hm : s.p.mode = false) (hb : s.p.buf = []) :
+    (readEvent c x s).err = none ∧ (readEvent c x s).p.mode = false ∧ (readEvent c x s).p.buf = [] ∧
+    loggedOf (readEvent c x s).outs = loggedOf s.outs ++ (if c.hasLog then x else []) ∧
+    plogOf (readEvent c x s).outs = plogOf s.outs ++ (if evOn c then x else []) ∧
+    commOf (readEvent c x s).outs = commOf s.outs := by
+  obtain ⟨⟨mode, buf, cap, closed⟩, outs, err⟩ := s
+  simp only at he hm hb
+  subst he hm hb
+  have hscan : scanGo c x.isEmpty (([] ++ x : Bytes).length + 1) false ([] ++ x) = ⟨[.data x], false, [], false⟩ := by
+    unfold scanGo
+    simp [record_output_g0, record_output_a0, record_output_a1, hc]
+  have hlog := logData_plain c x ⟨⟨false, [], cap, closed⟩, outs, none⟩ rfl hst rfl
+  have hread : readEvent c x ⟨⟨false, [], cap, closed⟩, outs, none⟩ =
+      if x.isEmpty then close (logData c x ⟨⟨false, [], cap, closed⟩, outs, none⟩)
+      else logData c x ⟨⟨false, [], cap, closed⟩, outs, none⟩ := by
+    simp only [readEvent, guard, hre_a1, hre_c0_0, hre_g0, setP, Bool.not_not, recordOutput,
+      Option.isSome_none, Bool.false_eq_true, if_false, hscan, performAll, List.foldl_cons, List.foldl_nil, perform]
+  rw [hread, hlog]
+  cases x with
+  | nil =>
+    simp only [List.isEmpty_nil, if_true, close, guard, emit, setP, Option.isSome_none, Bool.false_eq_true, if_false]
+    cases closed <;> simp [loggedOf_append, plogOf_append, commOf_append, loggedOf, plogOf, commOf]
+  | cons a r =>
+    simp only [List.isEmpty_cons, Bool.false_eq_true, if_false]
+    cases c.hasLog <;> cases evOn c <;>
+      simp [loggedOf_append, plogOf_append, commOf_append, loggedOf, plogOf, commOf]
+
+/-- `capture_off_is_plain`: with capture_maxbytes = 0 every byte read, tags included, goes to the
+    log (and to PROCESS_LOG events when enabled) at once, in order, for every fragmentation, and
+    no PROCESS_COMMUNICATION event is ever emitted -/
+theorem capture_off_is_plain (c : Cfg) (hc : c.capMax = 0) (hst : c.strip = false) (chunks : List Bytes) :
+    (feedAll c chunks init).err = none ∧
+    loggedOf (feedAll c chunks init).outs = (if c.hasLog then chunks.flatten else []) ∧
+    plogOf (feedAll c chunks init).outs = (if evOn c then chunks.flatten else []) ∧
+    commOf (feedAll c chunks init).outs = [] := by
+  suffices h : ∀ (s : S), s.err = none → s.p.mode = false → s.p.buf = [] →
+      (feedAll c chunks s).err = none ∧
+      loggedOf (feedAll c chunks s).outs = loggedOf s.outs ++ (if c.hasLog then chunks.flatten else []) ∧
+      plogOf (feedAll c chunks s).outs = plogOf s.outs ++ (if evOn c then chunks.flatten else []) ∧
+      commOf (feedAll c chunks s).outs = commOf s.outs by
+    simpa [init, loggedOf, plogOf, commOf] using h init rfl rfl rfl
+  induction chunks with
+  | nil => intro s he _ _; simp [feedAll, he]
+  | cons x r ih =>
+    intro s he hm hb
+    obtain ⟨e1, m1, b1, l1, p1, c1⟩ := read_capture_off c hc hst x s he hm hb
+    obtain ⟨e2, l2, p2, c2⟩ := ih _ e1 m1 b1
+    simp only [feedAll, List.foldl_cons] at e2 l2 p2 c2 ⊢
+    refine ⟨e2, ?_, ?_, by rw [c2, c1]⟩
+    · rw [l2, l1]; cases c.hasLog <;> simp
+    · rw [p2, p1]; cases evOn c <;> simp
+
+/-! ### non-vacuity: the hypotheses are satisfiable, and concrete runs behave as stated -/
+
+/-- stdout dispatcher, capture_maxbytes = 5, log file and events on -/
+def exCfg : Cfg := { capMax := 5, hasLog := true, strip := false, isStdout := true, outEv := true, errEv := false,
+                     btok := stdout_BEGIN, etok := stdout_END }
+
+example : Std exCfg ∧ 0 < exCfg.capMax ∧ exCfg.strip = false := ⟨⟨rfl, rfl⟩, by decide, rfl⟩
+example : exCfg.btok ≠ [] ∧ exCfg.etok ≠ [] := std_tokens_nonempty exCfg ⟨rfl, rfl⟩
+example : Inv exCfg init [] := init_inv exCfg (by decide)
+
+/-- "a" BEGIN "bcdefgh" END "z", cut inside both tags -/
+def exChunks : List Bytes := [[97] ++ stdout_BEGIN.take 9, stdout_BEGIN.drop 9 ++ [98, 99, 100], [101, 102, 103, 104] ++ stdout_END.take 21,
+  stdout_END.drop 21 ++ [122]]
+
+example : ∀ x ∈ exChunks, x ≠ [] := by decide
+example : exChunks.flatten = [97] ++ stdout_BEGIN ++ [98, 99, 100, 101, 102, 103, 104] ++ stdout_END ++ [122] := by decide
+-- the log has "az", the PROCESS_LOG events "a" and "z", one event with the last 5 bytes of "bcdefgh"
+example : loggedOf (run exCfg exChunks).outs = [97, 122] := by decide
+example : commOf (run exCfg exChunks).outs = [[100, 101, 102, 103, 104]] := by decide
+example : (run exCfg exChunks).outs = [.log [97], .plog true [97], .comm [100, 101, 102, 103, 104], .log [122], .plog true [122], .closed] := by decide
+-- the same stream in one read: same log, one event
+example : loggedOf (run exCfg [exChunks.flatten]).outs = [97, 122] ∧
+    commOf (run exCfg [exChunks.flatten]).outs = [[100, 101, 102, 103, 104]] := by decide
+-- which trailing part of an oversized section survives depends on how it was written (BoundIO.write):
+example : boundWrite (boundWrite [] [1, 2, 3] 5) [4, 5, 6, 7] 5 = [4, 5, 6, 7] ∧ boundWrite [] [1, 2, 3, 4, 5, 6, 7] 5 = [3, 4, 5, 6, 7] := by decide
+-- F3 (fixed): a short stream is logged at end of file, not before
+example : (feedAll exCfg [[104, 105]] init).outs = [] ∧ loggedOf (run exCfg [[104, 105]]).outs = [104, 105] := by decide
+-- an unterminated section: hypotheses of `unterminated_section_yields_no_event` hold for "a" BEGIN "b"
+example : splitFirst exCfg.btok ([[97] ++ stdout_BEGIN ++ [98]].flatten) = some ([97], [98]) ∧ splitFirst exCfg.etok [98] = none := by decide
+example : (run exCfg [[97] ++ stdout_BEGIN ++ [98]]).outs = [.log [97], .plog true [97], .closed] := by decide
+-- capture off: the tags are output
+example : loggedOf (feedAll { exCfg with capMax := 0 } [stdout_BEGIN.take 9, stdout_BEGIN.drop 9] init).outs = stdout_BEGIN := by decide
+
 end Sv.Props.C08
